@@ -1,8 +1,65 @@
 import GraafVerif.Driver.Common
-/-! Driver handlers for property C07 (ops the harness module `ops/c07.rs` emits). -/
-namespace GraafVerif.Driver.H07
-open GraafVerif GraafVerif.Driver
+import GraafVerif.Model.Bfm
+/-!
+Driver handlers for C07.
 
-def handlers : List (String × Handler) := []
+  bfm_dist [wi n warcs] s  =>  (panic | none | [d…])  (- | [dijkstra d…])
+
+`d` entries are integers or the atom `inf` (`isize::MAX` / `usize::MAX`).  The second output is
+what the REAL `DijkstraDist::distances` returned on the same arcs (only when every weight is
+non-negative and the source is in range; `-` otherwise).
+
+* correspondence: first output = `Bfm.distances` of the model;
+* property oracle (on the implementation's output): `wdistB` of `Spec/Graph.lean` — `none` iff
+  a negative circuit is reachable from `s`, otherwise exactly the oracle's distances with `inf`
+  at the unreachable vertices; on non-negative weights the real Dijkstra must agree as well.
+-/
+namespace GraafVerif.Driver.H07
+open GraafVerif GraafVerif.Driver GraafVerif.Bfm
+
+def distToV (d : List (Option Int)) : V := .l (d.map (fun x => match x with | none => V.a "inf" | some x => V.i x))
+
+def resToV : Res → V
+  | .panic => .a "panic"
+  | .ret none => .a "none"
+  | .ret (some d) => distToV d
+
+def hDist : Handler := fun _ args obs =>
+  match args, obs with
+  | [gd, s], [out, dij] => do
+    let gd ← GDesc.parse gd
+    if gd.repr != "wi" then none
+    let s ← V.nat? s
+    let g := gd.wgraph
+    let n := g.n
+    let arcs := arcsOf g
+    let m := arcs.length
+    let model := resToV (distances g s)
+    let nonneg := arcs.all (fun a => decide (0 ≤ a.2.2))
+    let (od, negReach) := if s < n then wdistB g [s] else ([], false)
+    let anyNeg := (wdistB g (List.range n)).2
+    let propFail : Option String :=
+      if s < n then
+        if negReach then
+          (if out == V.a "none" then none else some "negative-circuit-reachable-but-not-none")
+        else if out == V.a "none" then some "none-without-reachable-negative-circuit"
+        else if out != distToV od then some s!"spec-says {distToV od}"
+        else if nonneg && dij != out then some s!"dijkstra-disagrees {dij}"
+        else none
+      else none
+    let used := if s < n then roundsUsed arcs (n - 1) (init n s) else (0, false)
+    let tags := [
+      sizeTag n,
+      s!"m%4={m % 4}",
+      (if m ≤ 3 then "m0-3" else if m ≤ 6 then "m4-6" else if m ≤ 9 then "m7-9" else "m>9"),
+      (if negReach then "neg-reachable" else if anyNeg then "neg-unreachable" else "no-neg"),
+      (if nonneg then "w-nonneg" else "w-hasneg"),
+      (if out == V.a "none" then "res-none" else if out == V.a "panic" then "res-panic" else "res-some"),
+      (if s < n then (if n ≤ 1 then "no-rounds" else if used.2 then (if used.1 < n - 1 then "break-early" else "break-in-last-round") else "all-rounds-updated") else "src-out-of-range"),
+      (if od.any Option.isNone then "some-unreachable" else "all-reachable") ]
+    pure (classify [out] [model] propFail (nt := n ≥ 2 && m ≥ 1 && s < n) tags)
+  | _, _ => none
+
+def handlers : List (String × Handler) := [("bfm_dist", hDist)]
 
 end GraafVerif.Driver.H07
